@@ -127,9 +127,9 @@ class DBConnection:
     def uri(self):
         auth = getattr(self, 'user', '') or ''
         if auth:
-            auth = quote(auth)
+            auth = quote(auth, safe='')
             if self.password:
-                auth += ':' + quote(self.password)
+                auth += ':' + quote(self.password, safe='')
             auth += '@'
         else:
             assert not getattr(self, 'password', None), (
